@@ -287,16 +287,17 @@ class PiecewiseConstantBirthDeath(Distribution):
 
         times = torch.broadcast_to(times, self.mu.shape[:-1] + times.shape[-1:])
 
-        # rho.shape==[2,1] and lambda_.shape==[2,5] : add zeros
-        if self.rho.shape[:-1] == self.lambda_.shape[:-1] and self.rho.shape[-1] < m:
+        # rho.shape==[2,1] or [1] and lambda_.shape==[2,5] : sampling at the present
+        # only, add zeros for the other epochs
+        if self.rho.shape[-1] < m:
             rho = torch.cat(
                 (
                     torch.zeros(
-                        self.lambda_.shape[:-1] + (m - 1,),
+                        self.lambda_.shape[:-1] + (m - self.rho.shape[-1],),
                         dtype=self.lambda_.dtype,
                         device=self.lambda_.device,
                     ),
-                    self.rho,
+                    self.rho.expand(self.lambda_.shape[:-1] + (-1,)),
                 ),
                 -1,
             )
